@@ -719,6 +719,56 @@ def r10(ctx):
             ctx.emit('C09-R10', False, rel, c, f'the DS value `{text[:80]}` written by CHICMolecule.write_tags is not recognised as the molecule anchor', key='molecule-DS-is-anchor', undecided=True)
 
 
+@rule('C09', 'C09-R11', 'the options the site code reads are the ones the caller gave: every constructor parameter of NlaIIIFragment / CHICFragment that a method of the class reads as '
+                        '`self.<name>` is stored from that parameter in the constructor, or forwarded under its name to the base constructor which stores it')
+def r11(ctx):
+    from .slots import FRAGMENT
+    base = ctx.ix.module(FRAGMENT)
+    bdef = ctx.fn(FRAGMENT, 'Fragment.__init__')
+    bparams = {a.arg for a in bdef.args.args + bdef.args.kwonlyargs}
+
+    def stored(init, name):
+        for st in walk_no_nested(init):
+            if isinstance(st, (ast.Assign, ast.AnnAssign)) and st.value is not None:
+                ts = st.targets if isinstance(st, ast.Assign) else [st.target]
+                if any(src(t) == f'self.{name}' for t in ts) and name in names_in(st.value):
+                    return True
+        return False
+    n = 0
+    for rel, cls in ((FRAG_NLA, 'NlaIIIFragment'), (FRAG_CHIC, 'CHICFragment')):
+        mod = ctx.ix.module(rel)
+        init = ctx.fn(rel, f'{cls}.__init__')
+        params = [a.arg for a in init.args.args + init.args.kwonlyargs][1:]
+        reads = set()
+        for q, ds in mod.defs.items():
+            if q.startswith(cls + '.') and not q.endswith('.__init__'):
+                for x in ast.walk(ds[-1]):
+                    if isinstance(x, ast.Attribute) and isinstance(x.ctx, ast.Load) and isinstance(x.value, ast.Name) and x.value.id == 'self':
+                        reads.add(x.attr)
+        supers = [c for c in walk_no_nested(init) if isinstance(c, ast.Call) and isinstance(c.func, ast.Attribute) and c.func.attr == '__init__']
+        for p_ in params:
+            if p_ not in reads:
+                continue
+            n += 1
+            fwd = False
+            border = [a.arg for a in bdef.args.args]
+            for c in supers:
+                pos = list(c.args)
+                offset = 0 if (pos and isinstance(pos[0], ast.Name) and pos[0].id == 'self') else 1       # Fragment.__init__(self, ...) or super().__init__(...)
+                for i, a in enumerate(pos):
+                    if p_ in names_in(a) and i + offset < len(border) and stored(bdef, border[i + offset]):
+                        fwd = True
+                for k in c.keywords:
+                    if k.arg is not None and p_ in names_in(k.value) and k.arg in bparams and stored(bdef, k.arg):
+                        fwd = True
+            ok = stored(init, p_) or fwd
+            ctx.emit('C09-R11', ok, rel, init, f'{cls}: option `{p_}` reaches self.{p_}' + (' (stored in the constructor)' if stored(init, p_) else ' (forwarded to Fragment.__init__)' if fwd else
+                     f': the constructor neither stores it nor forwards it - {cls}(..., {p_}=<value>) leaves self.{p_} at whatever the base class sets, and the site is computed with that'),
+                     key=f'{cls}:option-stored:{p_}', witness={'constructor call': f'{cls}(reads, {p_}=<non-default>)', f'self.{p_}': 'base-class default'} if not ok else None,
+                     what=f'{cls}: constructor option {p_} does not reach the site code')
+    ctx.need('C09-R11', n, 4, 'constructor options read by the site code')
+
+
 META = {
     'text': ('Decides, by path-forking symbolic execution of identify_site over every combination of strand, soft-clip presence and '
              'no_umi_cigar_processing (and layout / invert_strand for scCHIC): the site passed to set_site is, as a linear form, the clip-corrected '
